@@ -302,6 +302,23 @@ def align_forms(repo):
     return out
 
 
+FESHAPE_FORMS = ["shapes = set()", "stack = list(operands)", "operand = stack.pop()", "shapes.add(operand.shape[:2])", "stack.extend(operand)", "return shapes.pop()",
+                 "return np.broadcast_shapes(*shapes) if shapes else ()"]
+
+
+def feshape_forms(repo):
+    """statement-level tie for `_FeShape`: the leading shape of a result is the numpy BROADCAST of the leading shapes of its FeArray operands"""
+    tree = ast.parse(open(os.path.join(repo, "EasyFEA", "FEM", "_linalg.py"), encoding="utf-8").read())
+    fn = next((f for f in tree.body if isinstance(f, ast.FunctionDef) and f.name == "_FeShape"), None)
+    if fn is None:
+        raise Refuse("_FeShape not found")
+    src = [ast.unparse(st) for st in ast.walk(fn) if isinstance(st, ast.stmt) and not isinstance(st, (ast.If, ast.For, ast.While, ast.FunctionDef))
+           and not (isinstance(st, ast.Expr) and isinstance(st.value, ast.Constant) and isinstance(st.value.value, str))]
+    if sorted(src) != sorted(FESHAPE_FORMS):
+        raise Refuse(f"_FeShape: statements changed: {sorted(set(src) ^ set(FESHAPE_FORMS))}")
+    return FESHAPE_FORMS
+
+
 def write(repo: str, outdir: str) -> dict:
     ex = extract(repo)
     af = align_forms(repo)
@@ -312,6 +329,11 @@ def write(repo: str, outdir: str) -> dict:
             + ",\n  ".join("(" + q(k) + ", [" + ", ".join(q(x) for x in v) + "])" for k, v in af.items()) + "]\n\nend EasyFEAVerif.Gen.C12\n")
     os.makedirs(outdir, exist_ok=True)
     _write_if_changed(os.path.join(outdir, "Align.lean"), atxt)
+    fs = feshape_forms(repo)
+    _write_if_changed(os.path.join(outdir, "FeShape.lean"),
+                      "-- GENERATED by tools/py2lean/gen_c12.py from _FeShape in /repo/EasyFEA/FEM/_linalg.py — do not edit\n"
+                      "namespace EasyFEAVerif.Gen.C12\n\n/-- the statements of `_FeShape` (the (Ne, nPg) an operation runs at), matched against the source -/\n"
+                      "def feShapeForms : List String := [" + ", ".join(q(x) for x in fs) + "]\n\nend EasyFEAVerif.Gen.C12\n")
     os.makedirs(outdir, exist_ok=True)
     rules = broadcast_rules(repo)
     btxt = ("-- GENERATED by tools/py2lean/gen_c12.py from FeArray.broadcast in /repo/EasyFEA/FEM/_linalg.py — do not edit\n"
